@@ -20,7 +20,7 @@ func init() {
 			"returned listener, delivered to a waiter, or completed), including paths that loop; results obey 'listener iff ok'; (O4) the hand-off channel protocol " +
 			"cannot strand a token; (O5) partitioned strategies charge total and bin +1 once on the grant path on the partition the release closure captures, and the " +
 			"closure gives both back once under the strategy mutex; (O6) the limiter gauge is incremented exactly once on, and only on, the grant path and the listener " +
-			"is wired to that gauge and that token; (O7) StaticStrategyToken.Release invokes the stored release function exactly once. API misuse by callers (completing twice / never) is outside the statement.",
+			"is wired to that gauge and that token; (O7) StaticStrategyToken.Release invokes the stored release function exactly once. Later obligations reuse sibling rules on the same tree: (O8) the counter discipline of the non-partitioned strategies (C01/O2), (O9) nobody who has left the backlog is handed capacity (C12/O2), (O10) the queue hand-off is one critical section with the give-up (C10/O5), (O11) a refusal is the strategy's answer to this call, never a remembered one (C01/O7). API misuse by callers (completing twice / never) is outside the statement.",
 	})
 }
 
